@@ -1109,4 +1109,63 @@ theorem welch_swap (m1 v1 : Rat) (n1 : Nat) (m2 v2 : Rat) (n2 : Nat) :
     have : (m1 - m2) * (m1 - m2) = (m2 - m1) * (m2 - m1) := by ring
     simp only [this]
 
+/-! ### the pair list -/
+
+theorem length_combos2 {α} (l : List α) : (combos2 l).length = l.length * (l.length - 1) / 2 := by
+  induction l with
+  | nil => simp [combos2]
+  | cons a rest ih =>
+    simp only [combos2, List.length_append, List.length_map, ih, List.length_cons,
+      Nat.add_sub_cancel]
+    have h : rest.length * (rest.length - 1) % 2 = 0 := by
+      rcases Nat.even_or_odd rest.length with ⟨k, hk⟩ | ⟨k, hk⟩
+      · rw [hk]; have : (k + k) * (k + k - 1) = 2 * (k * (k + k - 1)) := by ring
+        rw [this]; simp
+      · rw [hk]; have : (2 * k + 1) * (2 * k + 1 - 1) = 2 * ((2 * k + 1) * k) := by
+          simp only [Nat.add_sub_cancel]; ring
+        rw [this]; simp
+    have e : (rest.length + 1) * rest.length = 2 * rest.length + rest.length * (rest.length - 1) := by
+      cases rest.length with
+      | zero => rfl
+      | succ n => simp only [Nat.add_sub_cancel]; ring
+    rw [e]
+    omega
+
+/-- for a strictly sorted leaf list the table has exactly one row for every pair `a < b` -/
+theorem combos2_sorted {l : List Nat} (hs : l.Pairwise (· < ·)) :
+    (combos2 l).Nodup ∧ ∀ a b, (a, b) ∈ combos2 l ↔ a ∈ l ∧ b ∈ l ∧ a < b := by
+  induction l with
+  | nil => simp [combos2]
+  | cons x rest ih =>
+    have hs' := (List.pairwise_cons.mp hs).2
+    have hx := (List.pairwise_cons.mp hs).1
+    obtain ⟨ihn, ihm⟩ := ih hs'
+    have hnd : rest.Nodup := hs'.imp (fun h => ne_of_lt h)
+    constructor
+    · simp only [combos2]
+      rw [List.nodup_append]
+      refine ⟨?_, ihn, ?_⟩
+      · exact List.Pairwise.map _ (fun a b (h : a ≠ b) => fun e => h (by simpa using e)) hnd
+      · intro p hp q hq
+        obtain ⟨b, hb, rfl⟩ := List.mem_map.mp hp
+        obtain ⟨c, d⟩ := q
+        have := (ihm c d).mp hq
+        intro e
+        simp only [Prod.mk.injEq] at e
+        have hlt := hx c this.1
+        omega
+    · intro a b
+      simp only [combos2, List.mem_append, List.mem_map, Prod.mk.injEq, List.mem_cons]
+      constructor
+      · rintro (⟨c, hc, rfl, rfl⟩ | h)
+        · exact ⟨Or.inl rfl, Or.inr hc, hx _ hc⟩
+        · obtain ⟨h1, h2, h3⟩ := (ihm a b).mp h
+          exact ⟨Or.inr h1, Or.inr h2, h3⟩
+      · rintro ⟨ha | ha, hb | hb, hlt⟩
+        · omega
+        · subst ha; exact Or.inl ⟨b, hb, rfl, rfl⟩
+        · subst hb; have := hx a ha; omega
+        · exact Or.inr ((ihm a b).mpr ⟨ha, hb, hlt⟩)
+
+
 end CTM.RefMarkers
